@@ -367,9 +367,18 @@ def _basetype_be(enc):
             if enc:
                 staged["le"] = list(src.region.data[:8])
             else:
-                # contract of the copy: the staging buffer receives the stream bits; bytes beyond the copied bits keep their zeros
+                # contract of the copy (n bits ORed into a ZEROED destination window): requires the staging bytes zero - a staging
+                # buffer that still holds bits of an earlier call violates it -; bits [0, n) receive the stream bits, bits >= n stay
+                n32 = cn if z3.is_expr(cn) else bv32(cn)
                 for k in range(8):
-                    dst.region.data[k] = produced[k]
+                    old = dst.region.data[k]
+                    old = old if z3.is_expr(old) else z3.BitVecVal(old, 8)
+                    E.oblige("pre-of-callee:BpCopyBufferBits/destination-zero[%d]" % k, old == 0, kind="pre-of-callee")
+                    rem = n32 - 8 * k                              # bits of this byte that are copied (may be <= 0 or >= 8)
+                    keep = z3.LShR(z3.BitVecVal(255, 8), z3.Extract(7, 0, 8 - rem))
+                    got = z3.If(rem >= 8, produced[k], z3.If(rem <= 0, old, (produced[k] & keep) | old))
+                    staged.setdefault("new", []).append(got)
+                    dst.region.data[k] = got
         it.stubs["BpCopyBufferBits"] = copy
         it.call_func("BpEndecodeBaseType", [n, Ptr(ctx, 0), Ptr(data, 0)])
         size = z3.If(n <= 8, 1, z3.If(n <= 16, 2, z3.If(n <= 32, 4, 8)))
@@ -394,7 +403,7 @@ def _basetype_be(enc):
                 E.oblige("post:staging[size=%d]" % sz, z3.Implies(on_path, z3.And(*conds)))
             else:
                 now = [data.data[k] if z3.is_expr(data.data[k]) else z3.BitVecVal(data.data[k], 8) for k in range(8)]
-                conds = [now[sz - 1 - k] == produced[k] for k in range(sz)] + [now[k] == vals[k] for k in range(sz, 8)]
+                conds = [now[sz - 1 - k] == staged["new"][k] for k in range(sz)] + [now[k] == vals[k] for k in range(sz, 8)]
                 E.oblige("post:staging[size=%d]" % sz, z3.Implies(on_path, z3.And(*conds)))
         E.oblige("post:object-window", z3.BoolVal(all(k < 8 for k in data.reads | data.writes)), kind="frame")
     return _p
